@@ -140,3 +140,35 @@ func DecodeBlockChecked(block []byte) (int, error) {
 	n := len(block)
 	return int(block[n-1])<<4 | int(block[n-2]&0x0F), nil // SLICE-LENREL: discharged
 }
+
+type cursor struct {
+	data []byte
+	pos  int
+}
+
+// take returns the bytes up to an end offset announced by the stream: SLICE-UNRELATED controls.
+func (c *cursor) take(start int, announced uint32) []byte {
+	end := start + int(announced)
+	if end > len(c.data) {
+		return nil
+	}
+	return c.data[c.pos:end] // SLICE-UNRELATED: violated (end is never compared with c.pos)
+}
+
+func (c *cursor) takeChecked(start int, announced uint32) []byte {
+	end := start + int(announced)
+	if end > len(c.data) || end < c.pos {
+		return nil
+	}
+	return c.data[c.pos:end] // SLICE-UNRELATED: discharged
+}
+
+// DecodeAnnounced drives the cursor from stream bytes.
+func DecodeAnnounced(data []byte) int {
+	if len(data) < 8 {
+		return 0
+	}
+	c := &cursor{data: data, pos: 4}
+	n := uint32(data[0])<<8 | uint32(data[1])
+	return len(c.take(2, n)) + len(c.takeChecked(2, n))
+}
